@@ -22,7 +22,7 @@ def unhx(h):
 # ------------------------------------------------------------------ specification oracles (python)
 def py_int_read(t, old, base=10):
     """formatted extraction of an integer: white space, optional sign, digits.  -> (value, rest, eof, fail)"""
-    digs = "0123456789" if base == 10 else "0123456789abcdefABCDEF"
+    digs = {10: "0123456789", 16: "0123456789abcdefABCDEF", 8: "01234567"}[base]
     n = len(t)
     i = 0
     while i < n and t[i] in WS:
@@ -181,6 +181,8 @@ RINGS = {
     "i16_i32": ("mod", "int", None), "u16_u32": ("mod", "int", None), "i32_i32": ("mod", "int", None),
     "i32_i64": ("mod", "int", None), "u32_u64": ("mod", "int", None), "i64_i64": ("mod", "int", None),
     "i64_u64": ("mod", "int", None), "u64_u64": ("mod", "int", None),
+    "i16_i16": ("mod", "int", None), "u16_u16": ("mod", "int", None), "u32_u32": ("mod", "int", None),
+    "i64_u128": ("mod", "int", None), "u64_u128": ("mod", "int", None),
     "f_f": ("mod", "int", None), "f_d": ("mod", "int", None), "d_d": ("mod", "int", None),
     "bi32": ("bal", "word", I32), "bi64": ("bal", "word", I64),
     "bf": ("bal", "dbl", (-2**24, 2**24)), "bd": ("bal", "dbl", (-2**53, 2**53)),
@@ -227,6 +229,22 @@ TAILS_ANY = ["", " ", "\n", "\t", "  ", " x", "x", ",", ";7", " 5", " -5", "-5",
              "5", "07", " \n", "\r\n", "a", "A", "/0"]
 TAILS_ANY += [c + "7" for c in "!\"#$%&'()*,.:;<=>?@[\\]^_`{|}~"] + ["e5", "E5", ".5", "p1", "l", "L", "u", "\x7f", "\x80"]
 TAILS_DBL = [t for t in TAILS_ANY if not t or t[0] not in ".eE0123456789"]
+
+
+def int_boundaries():
+    """values at representation boundaries: word limits of every width, limb limits, digit-count limits"""
+    vs = [0, 1, 9, 10, 99, 100]
+    for e in (7, 8, 15, 16, 31, 32, 53, 62, 63, 64, 65, 127, 128, 129, 191, 192, 256):
+        vs += [2**e - 1, 2**e, 2**e + 1]
+    for e in (9, 10, 18, 19, 20, 38, 39, 77, 78):
+        vs += [10**e - 1, 10**e]
+    vs += [2**63 + 12345, 2**64 - 2**32, 3 * 2**62]
+    out = []
+    for v in vs:
+        for w in (v, -v):
+            if w not in out:
+                out.append(w)
+    return out
 
 
 def gen_int(rng):
@@ -311,6 +329,28 @@ def main(tier, replay=None):
         cases.append({"kind": kind, "impl": impl, "model": model, "spec": spec})
 
     # ---- Integer
+    for z in int_boundaries():      # every call form on every boundary value
+        for v in ("op", "print", "string", "zring"):
+            add("int.write", "int.write.%s %d" % (v, z), "int.write %d" % z, z=z, variant=v)
+        add("int.abs", "int.write.abs %d" % z, "int.abs %d" % z, z=z)
+        tail = rng.choice(TAILS_ANY)
+        for v in ("op", "zring", "print"):
+            add("int.rt", "int.rt.%s %d 7 %s" % (v, z, hx(tail)), "int.rt %d 7 %s" % (z, hx(tail)), z=z, old=7, tail=tail, variant=v)
+        add("int.strrt", "int.strrt %d" % z, "int.write %d" % z, z=z)
+        for b in (16, 8):
+            tl = rng.choice(["", " ", "\n", "x", "g", "-", ",", "/", " 1", "8", "9"])
+            add("int.rtb", "int.rtb %d %d 7 %s" % (b, z, hx(tl)), "int.rtb %d %d 7 %s" % (b, z, hx(tl)), z=z, base=b, tail=tl, old=7)
+        if z > 1:                   # as numerator and as denominator of a canonical rational
+            for (n, d) in ((z, 1), (-z, 1), (1, z), (-1, z), (z, z - 1), (z - 1, z), (-(z + 1), z)):
+                if math.gcd(n, d) == 1:
+                    tail = rng.choice(TAILS_ANY)
+                    add("rat.write", "rat.write.op %d %d" % (n, d), "rat.write %d %d" % (n, d), n=n, d=d)
+                    add("rat.rt", "rat.rt.op %d %d %s" % (n, d, hx(tail)), "rat.rt %d %d %s" % (n, d, hx(tail)), n=n, d=d, tail=tail)
+                    add("rat.strrt", "rat.strrt %d %d" % (n, d), "rat.rt %d %d -" % (n, d), n=n, d=d)
+    for i in range(60 * S):
+        z, b = gen_int(rng), rng.choice([16, 8])
+        tl = rng.choice(["", " ", "\n", "x", "g", "-", ",", "/", " 1", "8", "9", "f", "A"])
+        add("int.rtb", "int.rtb %d %d 7 %s" % (b, z, hx(tl)), "int.rtb %d %d 7 %s" % (b, z, hx(tl)), z=z, base=b, tail=tl, old=7)
     for i in range(220 * S):
         z = gen_int(rng)
         for v in ("op", "print", "string", "zring"):
@@ -466,6 +506,20 @@ def main(tier, replay=None):
             lo, hi = I32 if w == 32 else I64
             add("gfq.read", "gfq.read %d %d %d %s" % (w, p, k, hx(t)), "elt.readw 0 %d %d %d %s" % (lo, hi, q, hx(t)), q=q, lo=lo, hi=hi, text=t)
     # ---- RecInt
+    for K in (6, 7, 8, 9, 10, 11, 12):      # every value at a boundary of the representation or of the digit count
+        N = 1 << K
+        D = len(str(2**N - 1))
+        Ds = len(str(2**(N - 1)))
+        ub = [0, 1, 9, 10, 2**N - 1, 2**N - 2, 2**(N - 1), 2**(N - 1) - 1, 2**(N - 1) + 1, 10**(D - 1), 10**(D - 1) - 1, 10**(D - 1) + 1,
+              2**N - 2**(N - 64), 2**64 - 1 if N > 64 else 255, 2**64 if N > 64 else 256, 2**(N - 64) if N > 64 else 2**32, 16**(N // 4 - 1), 16**(N // 4 - 1) - 1]
+        sb = [0, 1, -1, 9, -9, 10, -10, 2**(N - 1) - 1, 2**(N - 1) - 2, -2**(N - 1), -2**(N - 1) + 1, 10**(Ds - 1), -10**(Ds - 1), 10**(Ds - 1) - 1,
+              -(10**(Ds - 1) - 1), 2**63 if N > 64 else 2**31, -(2**64) if N > 64 else -(2**32), -(2**(N - 2)), 2**(N - 2)]
+        for hexm in (0, 1):
+            for (sg, vals) in (("ru", ub), ("ri", sb)):
+                for a in vals:
+                    tail = rng.choice(TAILS_ANY) if not hexm else rng.choice(["", " ", "\n", "x", " 1", ",", "-", "g"])
+                    add(sg + ".rt", "%s.rt %d %d %d %s" % (sg, K, hexm, a, hx(tail)), "%s.rt %d %d %d %s" % (sg, K, hexm, a, hx(tail)),
+                        K=K, hex=hexm, a=a, tail=tail, sg=sg)
     for K in (6, 7, 8, 9, 12):
         N = 1 << K
         cnt = (26 if K < 12 else 8) * S
@@ -706,6 +760,16 @@ def judge(chk, c, got, mline, gfq_texts):
         exp = [hx(t), str(v), hx(r), st(e, f)]
         if got != exp:
             fail("Integer::operator>>(operator<<)", sp["variant"] + ("/digit-tail" if sp["tail"][:1].isdigit() else ""), " ".join(exp), "write then read")
+        corr(mt, got)
+        model_vs_spec(mt == exp, " ".join(exp))
+    elif kind == "int.rtb":
+        z, b = sp["z"], sp["base"]
+        t = ("-" if z < 0 else "") + (("%x" if b == 16 else "%o") % abs(z))
+        v, r, e, f = py_int_read(t + sp["tail"], sp["old"], b)
+        exp = [hx(t), str(v), hx(r), st(e, f)]
+        if got != exp:
+            cont = sp["tail"][:1] in ("0123456789abcdefABCDEF" if b == 16 else "01234567") and sp["tail"] != ""
+            fail("Integer::operator>>(operator<<) base %d" % b, "digit-tail" if cont else "roundtrip", " ".join(exp), "stream in hex/oct mode")
         corr(mt, got)
         model_vs_spec(mt == exp, " ".join(exp))
     elif kind == "int.read":
